@@ -22,7 +22,7 @@ EXPLANATION = ('(1) Overflow guards of both varint decoders, evaluated over ever
                'by the writer iff the reader re-creates it. (7) 8-byte reals: bias 64 / 14 hex digits / 56-bit mantissa / sign bit '
                'constants are paired between encoder and decoder and the exponent uses a normalising idiom. Value-level '
                'losslessness (one-ulp claim) is not decided.')
-ADVISORY = [('R-CONST', r'^unsigned_integer/packing$')]
+ADVISORY = []
 ASSUMPTIONS = ['the byte stream primitives oasis_read/oasis_write transfer bytes unchanged']
 XREF_FILES = ['src/oasis.cpp', 'src/gdsii.cpp', 'src/utils.cpp']
 
@@ -132,18 +132,98 @@ def check_packing(ctx, db):
     r = db.fn('gdstk::oasis_read_int_internal')
     ctx.touch(w)
     ctx.touch(r)
-    tw = norm(clone.canon(w.body, w, ren=clone.Renamer(w, params_by_name=True)))
-    tr = norm(clone.canon(r.body, r, ren=clone.Renamer(r, params_by_name=True)))
-    okw = '((*v1) = $bits)' in tw and '((*v1) |= ((uint8_t)($value & ((1 << (7 - $num_bits)) - 1)) << $num_bits))' in tw and '($value >>= (7 - $num_bits))' in tw and \
-        '((*(v1++)) |= 128)' in tw and '((*v1) = ($value & 127))' in tw and '($value >>= 7)' in tw
-    okr = '($result = ((uint64_t)(v0 & 127) >> $skip_bits))' in tr and 'uint8_t v1 = (v0 & ((1 << $skip_bits) - 1))' in tr and 'uint8_t v2 = (7 - $skip_bits)' in tr and \
-        '($result |= ((uint64_t)(v0 & 127) << v2))' in tr and '(v2 += 7)' in tr
-    ctx.check(okw and okr, 'R-CONST', 'int_internal/packing-formulas', w.loc(), 'first byte = bits | low (7-n) value bits << n, then 7-bit groups with 0x80 continuation; the reader takes bits = byte & (2^n - 1), value = (byte & 0x7F) >> n, then groups at 7-n, 14-n, ...',
-              'varint packing formulas differ between writer and reader (writer ok=%s reader ok=%s)' % (okw, okr))
+    # The four varint routines are interpreted (sa/minieval) on boundary values and compared with the format's definition:
+    # first byte = reserved bits | low (7-n) value bits << n, then 7-bit groups, least significant first, 0x80 = "more follows".
+    from .. import minieval as M
+
+    def spec_encode(value, n, bits):
+        out = [(bits & ((1 << n) - 1)) | ((value & ((1 << (7 - n)) - 1)) << n)]
+        value >>= 7 - n
+        while value > 0:
+            out[-1] |= 0x80
+            out.append(value & 0x7F)
+            value >>= 7
+        return out
+
+    def run_writer(fn, env):
+        got = []
+
+        def hook(callee, args, node):
+            if callee == 'gdstk::oasis_write':
+                buf, size, count = args[0], args[1], args[2]
+                if not isinstance(buf, M.Ptr) or size != 1:
+                    raise AnalysisBroken('%s: oasis_write call not understood' % fn.qn)
+                if buf.i + count > len(buf.arr):
+                    raise M.OutOfBounds('%d bytes are written from a %d-byte local buffer' % (count, len(buf.arr) - buf.i))
+                got.extend(buf.arr[buf.i:buf.i + count])
+                return (0,)
+            return None
+        try:
+            M.Mini(db, hook=hook, c_ints=True).run(fn.body, env)
+        except M.Return:
+            pass
+        return got
+
+    def run_reader(fn, env, data):
+        pos = [0]
+
+        def hook(callee, args, node):
+            if callee == 'gdstk::oasis_read':
+                dst, size, count = args[0], args[1], args[2]
+                if size != 1 or count != 1 or not isinstance(dst, M.Ref):
+                    raise AnalysisBroken('%s: oasis_read call not understood' % fn.qn)
+                if pos[0] >= len(data):
+                    return (1,)         # input exhausted: an error code other than NoError
+                dst.env[dst.name] = data[pos[0]]
+                pos[0] += 1
+                return (0,)
+            if callee in ('fputs', 'fprintf'):
+                return (0,)
+            return None
+        mi = M.Mini(db, hook=hook, member_store=True, members={'in.error_code': 0}, c_ints=True)
+        env = dict(env)
+        env['error_logger'] = 0
+        try:
+            mi.run(fn.body, env)
+            ret = None
+        except M.Return as rr:
+            ret = rr.v
+        return ret, env, pos[0], mi.members.get('in.error_code')
+
+    values = sorted({0, 1, 2, 5} | {(1 << k) + d for k in (3, 4, 5, 6, 7, 8, 13, 14, 20, 21, 27, 28, 34, 35, 41, 42, 48, 49, 55, 56, 57, 58, 59, 60, 61, 62) for d in (-1, 0, 1)} | {(1 << 63) - 1, 0x5555555555555555, 0x2AAAAAAAAAAAAAAA})
+    bad = []
+    cases = 0
     uw = db.fn('gdstk::oasis_write_unsigned_integer')
-    t = norm(clone.canon(uw.body, uw, ren=clone.Renamer(uw, params_by_name=True)))
-    ok = '{(uint8_t)($value & 127)' in t and '($value >>= 7)' in t and '((*(v1++)) |= 128)' in t and '((*v1) = ($value & 127))' in t and 'uint8_t[10]' in t
-    ctx.check(ok, 'R-CONST', 'unsigned_integer/packing', uw.loc(), 'unsigned integers are written as 7-bit little-endian groups with 0x80 continuation into a 10-byte buffer (enough for 64 bits)')
+    ur = db.fn('gdstk::oasis_read_unsigned_integer')
+    ctx.touch(uw)
+    ctx.touch(ur)
+    try:
+        for n in (1, 2, 3, 4):
+            for bits in sorted({0, 1, (1 << n) - 1, (1 << n) >> 1}):
+                for v in values:
+                    cases += 1
+                    want = spec_encode(v, n, bits)
+                    got = run_writer(w, {'out': ('opaque', 'out'), 'value': v, 'num_bits': n, 'bits': bits})
+                    if got != want and len(bad) < 4:
+                        bad.append('writer(value=%#x, reserved bits=%d:%d) emits %s, the format requires %s' % (v, n, bits, bytes(x & 0xFF for x in got).hex(), bytes(want).hex()))
+                    ret, env, used, err = run_reader(r, {'in': ('opaque', 'in'), 'skip_bits': n, 'result': 0}, want + [0x55])
+                    if (ret, env.get('result'), used) != (bits, v, len(want)) and len(bad) < 4:
+                        bad.append('reader(%s, skip=%d) returns bits %s value %s after %d bytes, the format requires bits %d value %#x after %d bytes' % (bytes(want).hex(), n, ret, env.get('result'), used, bits, v, len(want)))
+        for v in values + [(1 << 63), (1 << 64) - 1]:
+            cases += 1
+            want = spec_encode(v, 0, 0)
+            got = run_writer(uw, {'out': ('opaque', 'out'), 'value': v})
+            if got != want and len(bad) < 4:
+                bad.append('unsigned writer(%#x) emits %s, the format requires %s' % (v, bytes(x & 0xFF for x in got).hex(), bytes(want).hex()))
+            ret, env, used, err = run_reader(ur, {'in': ('opaque', 'in')}, want + [0x55])
+            if (ret, used) != (v, len(want)) and len(bad) < 4:
+                bad.append('unsigned reader(%s) returns %s after %d bytes, the format requires %#x after %d bytes' % (bytes(want).hex(), ret, used, v, len(want)))
+    except M.OutOfBounds as ex:
+        bad.append(str(ex))
+    ctx.explored['valuations'] += cases
+    ctx.check(not bad, 'R-CONST', 'int_internal/packing-formulas', w.loc(), 'interpreted on %d (value, reserved bits) cases up to 2^63-1 (2^64-1 unsigned): writers emit and readers decode exactly: first byte = bits | low (7-n) value bits << n, then 7-bit groups with 0x80 continuation; no store leaves the local buffer' % cases,
+              'varint packing differs from the format: ' + '; '.join(bad))
+    ctx.require('R-CONST varint cases interpreted', cases, 1000)
     # call-site pairs
     pairs = [('gdstk::oasis_write_integer', 'gdstk::oasis_read_integer', 1), ('gdstk::oasis_write_2delta', 'gdstk::oasis_read_2delta', 2), ('gdstk::oasis_write_3delta', 'gdstk::oasis_read_3delta', 3)]
     for wq, rq, n in pairs:
@@ -412,6 +492,50 @@ def check_reals(ctx, db):
         ctx.check(bool(rd) and bool(sp), 'R-TABLE', 'real/%s' % k, r.loc(), '%s reads %s bytes and converts from little-endian' % (k, wdt))
     ctx.check(all(rt.get(k_) is not None and not isinstance(rt.get(k_), str) for k_ in ('RealPositiveInteger', 'RealNegativeInteger', 'RealPositiveReciprocal', 'RealNegativeReciprocal')) and 'RealDouble' in has,
               'R-TABLE', 'real/writer-subset-of-reader', r.loc(), 'every form the writer emits has a reader arm')
+
+
+def check_closing_edge_source(ctx, db):
+    """The point-list encoder turns points[1..] into deltas in place. The closing edge of a closed list (first vertex minus last
+    vertex, which decides whether an implicit Manhattan/octangular type is admissible) must be formed from the absolute
+    coordinates: no path leads from an in-place store into `points` to the subtraction of two elements of `points` (R-ORDER)."""
+    cands = [g for g in db.by_qn.get('gdstk::oasis_write_point_list', []) if g.body is not None and any('IntVec2' in (p_.get('t') or '') for p_ in g.params)]
+    if len(cands) != 1:
+        raise AnalysisBroken('oasis_write_point_list(Array<IntVec2>&): definition not found')
+    f = cands[0]
+    ctx.touch(f)
+    pts = next(p_ for p_ in f.params if 'IntVec2' in (p_.get('t') or ''))
+
+    def is_elem(e):
+        e = _strip_casts(e)
+        if e is None:
+            return False
+        if e.k == 'CXXOperatorCallExpr' and e.op == '[]' or e.k == 'ArraySubscriptExpr':
+            b = _strip_casts(e.args[0] if e.k == 'CXXOperatorCallExpr' and e.args else (e.child('base') or (e.c[0] if e.c else None)))
+            while b is not None and b.k == 'MemberExpr' and b.n == 'items':
+                b = _strip_casts(b.child('base'))
+            return b is not None and b.k == 'DeclRefExpr' and b.d == pts['d']
+        if e.k == 'UnaryOperator' and e.op == '*':
+            return any(x.k == 'DeclRefExpr' and x.d == pts['d'] for x in e.walk())
+        return False
+    stores = [x for x in f.walk() if ((x.k == 'CXXOperatorCallExpr' and x.op in ('=', '-=', '+=')) or is_assign(x) or x.k == 'CompoundAssignOperator') and x.child('lhs') is not None and is_elem(x.child('lhs'))]
+    closing = [x for x in f.walk() if ((x.k == 'CXXOperatorCallExpr' and x.op == '-' and len(x.args) == 2 and all(is_elem(a) for a in x.args)) or
+                                     (x.k == 'BinaryOperator' and x.op == '-' and is_elem(x.child('lhs')) and is_elem(x.child('rhs'))))]
+    if not stores or not closing:
+        raise AnalysisBroken('oasis_write_point_list: in-place delta store (%d) / closing-edge subtraction (%d) not found' % (len(stores), len(closing)))
+    g = f.cfg
+    bad = []
+    for c in closing:
+        wc = g.where_node(c)
+        for st in stores:
+            ws = g.where_node(st)
+            if wc is None or ws is None:
+                raise AnalysisBroken('oasis_write_point_list: statement not located in the CFG')
+            path = g.path_avoiding(ws, lambda b, i, nid: (b, i) == wc, lambda b, i, nid: False)
+            if path or ws == wc:
+                bad.append('%s is evaluated after the in-place conversion at %s: it subtracts a delta, not the last vertex' % (c.loc(), st.loc()))
+                break
+    ctx.check(not bad, 'R-ORDER', 'point_list/closing-edge-from-absolute', f.loc(), 'the closing edge (first minus last vertex) is formed before points[] is converted to deltas in place (%d subtraction(s), %d in-place store(s))' % (len(closing), len(stores)),
+              '; '.join(bad))
 
 
 def check_point_lists(ctx, db):
@@ -912,6 +1036,7 @@ def run(ctx):
     ctx.attempt(check_directions, ctx, db)
     ctx.attempt(check_swaps, ctx, db)
     ctx.attempt(check_reals, ctx, db)
+    ctx.attempt(check_closing_edge_source, ctx, db)
     ctx.attempt(check_point_lists, ctx, db)
     ctx.attempt(check_point_list_fsm, ctx, db)
     ctx.attempt(check_point_list_decoder, ctx, db)
@@ -919,7 +1044,7 @@ def run(ctx):
 
 
 MANIFEST = dict(
-    text='Decides structural necessary conditions of lossless number codecs: both varint overflow guards are exact over every reachable decoder state x byte value (no silent wrap, no false overflow on terminal bytes, shift < 64, Overflow flagged); writer and reader packing parameters agree at every call-site pair and inside the two internal routines; for every sign/equality class of (x, y) the 2-/3-/g-delta writers composed with the readers are the identity and the direction/point-list/real type codes equal the specification; the six byte-swap bodies are exactly the byte-reversal permutation (bit-provenance domain) under opposite host guards; the real-number writer forms have inverse reader arms and doubles are cast only after proved integral; closed Manhattan lists drop/re-create exactly one delta; the point-list type classifier, interpreted as a finite automaton over delta classes (horizontal, vertical, two diagonals, general), ends in every reachable state with a list type whose delta codec can represent all deltas seen and, for closed lists, the closing edge; every arm of the point-list decoder, executed symbolically for 3 and 4 deltas (cursors as indices into a symbolic vertex array, fresh symbol per decoded delta, open and closed), stores exactly the vertices the format defines and accounts for exactly that many; the 8-byte-real constants are paired and the exponent uses a normalising idiom. The one-ulp claim and behaviour at 64-bit/exponent boundaries of floating arithmetic are not decided.',
+    text='Decides structural necessary conditions of lossless number codecs: both varint overflow guards are exact over every reachable decoder state x byte value (no silent wrap, no false overflow on terminal bytes, shift < 64, Overflow flagged); writer and reader packing parameters agree at every call-site pair; the four varint routines, partially evaluated on 1277 boundary cases (all 7-bit group boundaries, every reserved-bit count), emit and decode exactly the format\'s bytes with no store outside the local buffer; the closing edge of a closed point list is formed from absolute coordinates (no CFG path from the in-place delta store to the subtraction); for every sign/equality class of (x, y) the 2-/3-/g-delta writers composed with the readers are the identity and the direction/point-list/real type codes equal the specification; the six byte-swap bodies are exactly the byte-reversal permutation (bit-provenance domain) under opposite host guards; the real-number writer forms have inverse reader arms and doubles are cast only after proved integral; closed Manhattan lists drop/re-create exactly one delta; the point-list type classifier, interpreted as a finite automaton over delta classes (horizontal, vertical, two diagonals, general), ends in every reachable state with a list type whose delta codec can represent all deltas seen and, for closed lists, the closing edge; every arm of the point-list decoder, executed symbolically for 3 and 4 deltas (cursors as indices into a symbolic vertex array, fresh symbol per decoded delta, open and closed), stores exactly the vertices the format defines and accounts for exactly that many; the 8-byte-real constants are paired and the exponent uses a normalising idiom. The one-ulp claim and behaviour at 64-bit/exponent boundaries of floating arithmetic are not decided.',
     note='Trusted: clang front end, gx, sa rules. Guards and writer conditions are pure integer expressions evaluated over finite abstract state sets (decoder states derived from the initialiser and step constants; sign/equality classes of (x, y)); no library code is executed. An exponent computation outside the two confirmed idioms is reported as analysis-broken (to be re-confirmed), a ceil without the bump as a violation.',
-    technique='exhaustive evaluation of pure guard predicates over the reachable abstract decoder states + decision-table composition (writer o reader) + bit-provenance abstract domain for swaps + paired-constant rules',
+    technique='exhaustive evaluation of pure guard predicates over the reachable abstract decoder states + partial evaluation of the four varint routines by the checker\'s AST interpreter (C integer widths, local buffers) on a boundary table compared with the format definition + decision-table composition (writer o reader) + bit-provenance abstract domain for swaps + CFG ordering rule (closing edge formed before the in-place delta conversion)',
     design='§4 C19')
